@@ -160,8 +160,21 @@ OP_WEIGHTS = {
 }
 
 
+class _Now:
+    """cfg as seen by the generator for ONE live object: its weightedness is the object's current one (a weighted
+    batch inserted into an unweighted container switches it to weighted; copies made before keep their own)."""
+
+    def __init__(self, cfg, weighted):
+        self.__dict__["_c"] = cfg
+        self.__dict__["weighted"] = weighted
+
+    def __getattr__(self, k):
+        return getattr(self._c, k)
+
+
 def gen_op(rng, cfg, S):
     """Returns (name, abstract-args).  Invalid calls are generated at cfg.invalid_rate."""
+    cfg = _Now(cfg, S.weighted)
     kind = cfg.kind
     names = [n for n in OPS_BY_KIND[kind] if n not in cfg.avoid]
     if getattr(cfg, "hub", False):  # mostly insertions: the structure keeps growing
@@ -208,7 +221,11 @@ def gen_op(rng, cfg, S):
             items.append([key, None, rand_md(rng)])
         if not items:
             return "add_node", {"n": rng.choice(cfg.labels), "md": None}
-        use_w = cfg.weighted and rng.random() < 0.7
+        # a weights list handed to an UNWEIGHTED container: the library announces that it switches to weighted
+        # (Directed/Temporal/Multiplex) or that it ignores them (Hypergraph); either is admissible, a refused batch
+        # must leave the container as it was (still unweighted)
+        switch = (not cfg.weighted) and rng.random() < 0.06 and not getattr(cfg, "no_weight_switch", False)
+        use_w = (cfg.weighted and rng.random() < 0.7) or switch
         if use_w:
             for it in items:
                 it[1] = rng.choice(WEIGHTS)
@@ -219,7 +236,7 @@ def gen_op(rng, cfg, S):
         keys = [it[0] for it in items]
         a = {"items": [tuple(it) for it in items], "use_w": use_w, "use_md": use_md,
              "may_refuse": use_w and len(set(keys)) != len(keys)}
-        if invalid and use_w and len(items) > 1 and rng.random() < 0.5:
+        if (invalid or (switch and rng.random() < 0.4)) and use_w and len(items) > 1 and rng.random() < 0.5:
             a.update(valid=False, short_weights=True)  # weights list shorter than edge list
         return name, a
     if name == "remove_edge":
